@@ -48,8 +48,8 @@ SEEDED_SCALE = {"quick": 4, "thorough": 5}      # multiplies the run counts of t
 
 def plan(tier):
     if tier == "quick":
-        return [("uart_tx", 40), ("uart_rx", 50), ("spi", 80), ("timer", 60), ("watchdog", 40), ("pwm", 20), ("timeline", 60), ("i2c", 120)]
-    return [("uart_tx", 1500), ("uart_rx", 2500), ("spi", 4000), ("timer", 3000), ("watchdog", 2000), ("pwm", 500), ("timeline", 2000), ("i2c", 6000)]
+        return [("uart_tx", 40), ("uart_rx", 50), ("spi", 80), ("timer", 60), ("watchdog", 40), ("pwm", 20), ("timeline", 60), ("i2c", 120), ("spislave", 40), ("uart_full", 30)]
+    return [("uart_tx", 1500), ("uart_rx", 2500), ("spi", 4000), ("timer", 3000), ("watchdog", 2000), ("pwm", 500), ("timeline", 2000), ("i2c", 6000), ("spislave", 2000), ("uart_full", 1500)]
 
 
 def generate(family, rng, tier):
@@ -131,6 +131,12 @@ def generate(family, rng, tier):
     if family == "i2c":
         from props import c19_i2c
         return c19_i2c.generate(rng, tier)
+    if family == "spislave":
+        from props import c19_spislave
+        return c19_spislave.generate(rng, tier)
+    if family == "uart_full":
+        from props import c19_uartfull
+        return c19_uartfull.generate(rng, tier)
     if family == "timeline":
         last = rng.choice([1, 2, 3, 4, 5, 7, 8, 9, 15, 16, 17])
         times = sorted(set([rng.choice([0, 1]), last] + [rng.randint(0, last) for _ in range(rng.randint(0, 3))]))
@@ -142,6 +148,12 @@ def run(scn):
     if scn["family"] == "i2c":
         from props import c19_i2c
         return c19_i2c.run(scn, mkV, _result)
+    if scn["family"] == "spislave":
+        from props import c19_spislave
+        return c19_spislave.run(scn, mkV, _result)
+    if scn["family"] == "uart_full":
+        from props import c19_uartfull
+        return c19_uartfull.run(scn, mkV, _result, decode_tx_wave, RemoteTx)
     return {"timeline": run_timeline, "uart_tx": run_uart_tx, "uart_rx": run_uart_rx, "spi": run_spi, "timer": run_timer, "watchdog": run_watchdog,
             "pwm": run_pwm}[scn["family"]](scn)
 
@@ -158,22 +170,9 @@ def mkV(viols):
 
 
 # ------------------------------------------------------------------------------------------------
-def run_uart_tx(scn):
-    from migen import Signal
-    from litex.soc.cores import uart
-    from dsim.stream_agents import Producer
-    tw = scn["params"]["tuning_word"]
-    T = 2 ** 32 / tw
-    pads = uart.UARTPads()
-    dut = uart.RS232PHYTX(pads, Signal(32, reset=tw))
-    toks = scn["tokens"][0]
-    bench = Bench(wrap_top(dut), max_cycles=int(len(toks) * 12 * T + len(scn["src_pattern"]) * 2 + 200), tail=int(2 * T) + 4, fingerprint=False)
-    prod = bench.add(Producer(dut.sink, toks, scn["src_pattern"], None, name="tx"))
-    wave = []
-    bench.add(PortRecorder([pads.tx], lambda t, row: wave.append(row[0])))
-    bench.run()
-    viols = []
-    V = mkV(viols)
+def decode_tx_wave(wave, T, V):
+    """Independent pin-level receiver: frames of 10 cells of T cycles from each start edge; every cell must be constant in its
+    interior (+-1 cycle at the borders), start low, stop high. Returns (bytes, checks)."""
     checks = 0
     got, k, n = [], 0, len(wave)
     if wave and wave[0] != 1:
@@ -208,6 +207,27 @@ def run_uart_tx(scn):
             break
         got.append(sum(bit << i for i, bit in enumerate(bits[1:9])))
         k = int(s + 9.5 * T)
+    return got, checks
+
+
+def run_uart_tx(scn):
+    from migen import Signal
+    from litex.soc.cores import uart
+    from dsim.stream_agents import Producer
+    tw = scn["params"]["tuning_word"]
+    T = 2 ** 32 / tw
+    pads = uart.UARTPads()
+    dut = uart.RS232PHYTX(pads, Signal(32, reset=tw))
+    toks = scn["tokens"][0]
+    bench = Bench(wrap_top(dut), max_cycles=int(len(toks) * 12 * T + len(scn["src_pattern"]) * 2 + 200), tail=int(2 * T) + 4, fingerprint=False)
+    prod = bench.add(Producer(dut.sink, toks, scn["src_pattern"], None, name="tx"))
+    wave = []
+    bench.add(PortRecorder([pads.tx], lambda t, row: wave.append(row[0])))
+    bench.run()
+    viols = []
+    V = mkV(viols)
+    got, checks = decode_tx_wave(wave, T, V)
+    n = len(wave)
     exp = [toks[i]["data"] for _, i in prod.accepted]
     checks += len(got)
     if not viols and got != exp[:len(got)]:
